@@ -9,6 +9,9 @@ with `obj = {"id":n,"uuid":s|null,"tl":b,"label":s,"frame":s}`.
 response `{"err":kind}` or `{"pairs":[[estId, gtId|null]…], "whole":acc, "buckets":[acc…], "summary":[s,s,s,s]}`
 where `whole` is the accuracy of the model's own pairing against `len(gts)` and the buckets are
 scored from the result lists the harness hands in (ids refer to `ests` / `gts`).
+
+request  `{"op":"buckets","ests":[obj…],"gts":[obj…],"buckets":[…as above…]}` (a scene: the objects of all frames under
+scene-wide ids, every bucket = `[[]] ++` the frames' result lists) → `{"buckets":[acc…], "summary":[s,s,s,s]}`.
 -/
 open Lean
 
@@ -78,6 +81,13 @@ def handle : Json → Except String Json := fun j => do
       let (a, p, r, f) := summarize buckets
       pure (Json.mkObj [("pairs", jList jRes rs), ("whole", jAcc (accuracy rs gts.length)),
         ("buckets", jList jAcc buckets), ("summary", Json.arr #[jScore a, jScore p, jScore r, jScore f])])
+  | "buckets" =>
+    -- scoring only (a scene: the frames' buckets pooled); ids refer to `ests` / `gts`, which are not paired here
+    let ests ← getObjs j "ests"
+    let gts ← getObjs j "gts"
+    let buckets ← (← getArr j "buckets").toList.mapM (getBucket ests gts)
+    let (a, p, r, f) := summarize buckets
+    pure (Json.mkObj [("buckets", jList jAcc buckets), ("summary", Json.arr #[jScore a, jScore p, jScore r, jScore f])])
   | o => throw s!"unknown op {o}"
 
 end PEval.Driver.C11
